@@ -44,11 +44,13 @@ def build(U):
     im.prepend_in_block("    open spec fn sem(c: Ctx<'i>, pos: nat, st: Seq<Span<'i>>) -> Res<'i> { sem_opt::<R, T>(c, pos, st) }")
     im.closure(1, params=P.STACK_PARAM, contract=P.cl_parse('T'), fname='try_parse_partial_with')
     im.closure(1, params=P.STACK_PARAM, contract=P.cl_check('T'), fname='try_check_partial_with')
+    P.hints(im)
     U.emit(im)
 
     # ---- (T1, T2) -------------------------------------------------------------------------------
     im = U.impl('main/src/typed_node.rs', "TypedNode<'i, R> for (T1, T2)").drop_attrs()
     im.prepend_in_block("    open spec fn sem(c: Ctx<'i>, pos: nat, st: Seq<Span<'i>>) -> Res<'i> { sem_pair::<R, T1, T2>(c, pos, st) }")
+    P.hints(im)
     U.emit(im)
 
     # ---- [T; N], check path (the parse path builds a Vec and converts: see unit comb_arr) ---------
@@ -56,7 +58,7 @@ def build(U):
     im.rw('R3', 'vec.try_into()', 'shim_vec_try_into_array::<T, N>(vec)')
     im.prepend_in_block("    open spec fn sem(c: Ctx<'i>, pos: nat, st: Seq<Span<'i>>) -> Res<'i> { sem_times::<R, T>(c, N as nat, pos, st) }")
     INV = """            invariant
-                input.inv(), input.ctx() == input0.ctx(), input.off() >= input0.off(),
+                inv(input), input.ctx() == input0.ctx(), input.off() >= input0.off(),
                 stack@.snaps == old(stack)@.snaps, stack_all_wf(stack@),
                 sem_times::<R, T>(input0.ctx(), (N - it.index@) as nat, input.off(), stack@.cur)
                     == sem_times::<R, T>(input0.ctx(), N as nat, input0.off(), old(stack)@.cur),"""
@@ -77,4 +79,5 @@ def build(U):
     im.body_start("        let ghost input0 = input;", fname='try_check_partial_with')
     im.loop(1, fname='try_check_partial_with', it='it', inv=INV)
     im.before('let next = T::try_check_partial_with(input, stack)?;', UNF)
+    P.hints(im)
     U.emit(im)
